@@ -2,6 +2,8 @@ import Tally.Model.Buckets
 import Tally.Spec.C03
 import TallyProofs.Lemmas.Search
 import TallyProofs.Lemmas.ListAux
+import TallyProofs.Lemmas.ScopeConservationInst
+import TallyProofs.Lemmas.ScopeLiveReg
 /-!
 # C03 — each histogram sample lands in the one correct bucket; buckets tile the line
 
@@ -325,5 +327,692 @@ example : Spec.C03.placed ((valueUppers [0x4000000000000000, 0x8000000000000000,
 example : Spec.C03.placedNonFinite (valueUppers [0x4000000000000000, 0x8000000000000000]).length F64.posInf
     (placeValue (valueUppers [0x4000000000000000, 0x8000000000000000]) F64.posInf) = true :=
   nonfinite_value _ (by decide) _ (by decide)
+
+/-! ## clause (iv): conservation over whole histories (counters: C01 (iv), histograms: C03 (iv))
+
+Sequential scope model `Tally.Scope.step`.  `Cons.runEv st ops` runs `ops` from `st` and returns the final
+state and the concatenation of all reporter events.  Setting of every theorem:
+
+* `hmet : MetInv st` — metric ids are unique and below `nextMetric`; holds in every reachable state
+  (`Scope.reach_metInv`), the `_reach` corollaries take `Reach …` instead;
+* metric `m` is in the metric list of scope `sid` of `st` (`hs`, `hm`);
+* `Cons.Live final sid` — at the END of the history scope `sid` is not closed and the root has not been
+  closed; closing is irreversible (`Cons.Live.back`), so this says that neither was closed at any time;
+* attribution: reporter events carry no metric id, only (full name, tags).  `Cons.SoleOwner kind nm tg sid m`
+  says that in a state every metric of that kind with full name `nm` and tags `tg` is metric `m` of scope
+  `sid`; it is assumed in every state of the history (`Cons.Always`), which excludes a second metric with
+  the same identity on another scope object (`root.SubScope("a").Counter("b")` vs `root.Counter("a.b")`);
+* for the statements about a final `report`: a reporter is configured (`cfg.kind ≠ .none`) and scope `sid`
+  has a registry entry in `st` (it keeps it: `Cons.RegKeep`).
+
+Counters are int64 with wrap-around in the model (`wrap64`), so counter conservation is an equation
+between `wrap64` of both sides (congruence modulo 2^64); if both sides are in the int64 range it is an
+equation (`counter_conservation_exact`).  Histogram bucket counts are unbounded integers: exact equations. -/
+section Conservation
+open Tally.Scope Tally.Cons Tally.KeyGen
+
+/-! ### counters -/
+
+/-- sum of the values of the `Event.counter` events with full name `nm` and tags `tg` -/
+def counterDelivered (nm : Bytes) (tg : TagMap) (es : List Event) : Int := (es.map (cw nm tg id)).sum
+
+theorem counter_matches (st : St) (s : ScopeS) (n : Bytes) (u : Int) (ω φ : Int → Int) :
+    Matches (counterMeas (fqn st.sep s.pfx n) s.tags ω φ) st.sep s (.counter n u) := ⟨rfl, rfl, rfl⟩
+
+/-- **counter conservation, invariant form**: at the end of any history during which the counter's scope
+and the root stay open, (sum of all delivered values of `m`'s identity) + (what is still unreported)
+= (what was unreported at the start) + (sum of all `inc m v`), modulo 2^64. -/
+theorem counter_conservation_inv (st : St) (hmet : MetInv st) (sid m : Nat) (s : ScopeS) (n : Bytes) (u : Int)
+    (hs : getScope st sid = some s) (hm : (m, Metric.counter n u) ∈ s.metrics) (ops : List Op)
+    (hsole : Always (SoleOwner "counter" (fqn st.sep s.pfx n) s.tags sid m) st ops)
+    (hlive : Live (runEv st ops).1 sid) :
+    ∃ s' u', getScope (runEv st ops).1 sid = some s' ∧ (m, Metric.counter n u') ∈ s'.metrics ∧
+      wrap64 (counterDelivered (fqn st.sep s.pfx n) s.tags (runEv st ops).2 + u')
+        = wrap64 (u + incTotal m ops) := by
+  obtain ⟨s', x', hs', hx', ⟨u', rfl⟩, hw⟩ :=
+    core_inv (counterMeas (fqn st.sep s.pfx n) s.tags id id) (counterMeas_lawful _ _ _ _ weights_id) sid m two64
+      (IsCounter n) (incOf m) (fun _ => True) (isCounter_apply m n) (isCounter_reset n)
+      (fun x op _ h => counter_gain m n x op h) st hmet s _ hs hm (counter_matches st s n u id id) ⟨u, rfl⟩ ops
+      (fun _ _ => trivial) hsole hlive
+  exact ⟨s', u', hs', hx', wrap64_eq_of_cong hw⟩
+
+/-- **`counter_conservation`**: a history followed by one final `report`: the sum of all delivered values
+of `m`'s identity = what was unreported at the start + the sum of all `inc m v` (modulo 2^64), and nothing is
+left unreported. -/
+theorem counter_conservation (st : St) (hmet : MetInv st) (sid m : Nat) (s : ScopeS) (n : Bytes) (u : Int)
+    (hs : getScope st sid = some s) (hm : (m, Metric.counter n u) ∈ s.metrics) (ops : List Op)
+    (hsole : Always (SoleOwner "counter" (fqn st.sep s.pfx n) s.tags sid m) st (ops ++ [.report]))
+    (hlive : Live (runEv st (ops ++ [.report])).1 sid)
+    (hk : st.cfg.kind ≠ .none) (hreg : ∃ e ∈ st.reg, e.2 = sid) :
+    wrap64 (counterDelivered (fqn st.sep s.pfx n) s.tags (runEv st (ops ++ [.report])).2)
+        = wrap64 (u + incTotal m ops) ∧
+    ∃ s', getScope (runEv st (ops ++ [.report])).1 sid = some s' ∧ (m, Metric.counter n 0) ∈ s'.metrics := by
+  obtain ⟨s', x', hs', hx', ⟨u', rfl⟩, hw⟩ :=
+    core_flush (counterMeas (fqn st.sep s.pfx n) s.tags id id) (counterMeas_lawful _ _ _ _ weights_id) sid m two64
+      (IsCounter n) (incOf m) (fun _ => True) (isCounter_apply m n) (isCounter_reset n)
+      (fun x op _ h => counter_gain m n x op h) st hmet s _ hs hm (counter_matches st s n u id id) ⟨u, rfl⟩ ops
+      (fun _ _ => trivial) hsole hlive hk hreg
+  exact ⟨wrap64_eq_of_cong hw, s', hs', hx'⟩
+
+/-- … as an equation of integers when neither side leaves the int64 range -/
+theorem counter_conservation_exact (st : St) (hmet : MetInv st) (sid m : Nat) (s : ScopeS) (n : Bytes) (u : Int)
+    (hs : getScope st sid = some s) (hm : (m, Metric.counter n u) ∈ s.metrics) (ops : List Op)
+    (hsole : Always (SoleOwner "counter" (fqn st.sep s.pfx n) s.tags sid m) st (ops ++ [.report]))
+    (hlive : Live (runEv st (ops ++ [.report])).1 sid)
+    (hk : st.cfg.kind ≠ .none) (hreg : ∃ e ∈ st.reg, e.2 = sid)
+    (h1 : inInt64 (counterDelivered (fqn st.sep s.pfx n) s.tags (runEv st (ops ++ [.report])).2) = true)
+    (h2 : inInt64 (u + incTotal m ops) = true) :
+    counterDelivered (fqn st.sep s.pfx n) s.tags (runEv st (ops ++ [.report])).2 = u + incTotal m ops := by
+  have h := (counter_conservation st hmet sid m s n u hs hm ops hsole hlive hk hreg).1
+  unfold inInt64 minInt64 maxInt64 two63 at h1 h2
+  simp only [Bool.and_eq_true, decide_eq_true_eq] at h1 h2
+  unfold wrap64 two64 two63 at h
+  simp only at h
+  split at h <;> split at h <;> omega
+
+theorem cw_one_nonneg (nm : Bytes) (tg : TagMap) (e : Event) : 0 ≤ cw nm tg one e := by
+  cases e <;> simp only [cw] <;> first | (split <;> simp [one]) | exact Int.le_refl 0
+
+theorem cμ_nz_nonneg (x : Metric) : 0 ≤ cμ nz x := by
+  cases x <;> simp only [cμ, nz] <;> first | (split <;> simp) | exact Int.le_refl 0
+
+theorem no_counter_event {nm : Bytes} {tg : TagMap} {e : Event} (h : cw nm tg one e = 0) (v : Int) :
+    e ≠ .counter nm tg v := by
+  rintro rfl
+  simp [cw, one] at h
+
+/-- a counter with nothing unreported, a history with no operation through its handle: no counter event of
+its identity is delivered at all, whatever else happens (reports, other metrics, subscopes, closes of other
+scopes) -/
+theorem counter_silent_of_zero (st : St) (hmet : MetInv st) (sid m : Nat) (s : ScopeS) (n : Bytes)
+    (hs : getScope st sid = some s) (hm : (m, Metric.counter n 0) ∈ s.metrics) (ops : List Op)
+    (hidle : ∀ op ∈ ops, ScopeRec.target op ≠ some m)
+    (hsole : Always (SoleOwner "counter" (fqn st.sep s.pfx n) s.tags sid m) st ops)
+    (hlive : Live (runEv st ops).1 sid) :
+    ∀ e ∈ (runEv st ops).2, ∀ v, e ≠ .counter (fqn st.sep s.pfx n) s.tags v := by
+  intro e he
+  exact no_counter_event (core_silent (counterMeas (fqn st.sep s.pfx n) s.tags one nz)
+    (counterMeas_lawful _ _ _ _ weights_count) (cw_one_nonneg _ _) cμ_nz_nonneg sid m (IsCounter n)
+    (isCounter_apply m n) (isCounter_reset n) st hmet s _ hs hm (counter_matches st s n 0 one nz) ⟨0, rfl⟩ rfl
+    ops hidle hsole hlive e he)
+
+/-- **`idle_pass_silent`** (counter): `report`, then any operations none of which goes through handle `m`,
+then `report` again: nothing after the first report — in particular the second pass — produces a counter
+event of `m`'s identity. -/
+theorem counter_idle_pass_silent (st : St) (hmet : MetInv st) (sid m : Nat) (s : ScopeS) (n : Bytes) (u : Int)
+    (hs : getScope st sid = some s) (hm : (m, Metric.counter n u) ∈ s.metrics) (mid : List Op)
+    (hidle : ∀ op ∈ mid, ScopeRec.target op ≠ some m)
+    (hsole : Always (SoleOwner "counter" (fqn st.sep s.pfx n) s.tags sid m) st (.report :: (mid ++ [.report])))
+    (hlive : Live (runEv st (.report :: (mid ++ [.report]))).1 sid)
+    (hk : st.cfg.kind ≠ .none) (hreg : ∃ e ∈ st.reg, e.2 = sid) :
+    ∀ e ∈ (runEv (step st .report).1 (mid ++ [.report])).2, ∀ v, e ≠ .counter (fqn st.sep s.pfx n) s.tags v := by
+  intro e he
+  exact no_counter_event (core_idle (counterMeas (fqn st.sep s.pfx n) s.tags one nz)
+    (counterMeas_lawful _ _ _ _ weights_count) (cw_one_nonneg _ _) cμ_nz_nonneg sid m (IsCounter n)
+    (isCounter_apply m n) (isCounter_reset n) st hmet s _ hs hm (counter_matches st s n u one nz) ⟨u, rfl⟩
+    mid hidle hsole hlive hk hreg e he)
+
+/-! ### value histograms
+
+`RecordValue(v)` increments bucket `placeValue us v` (`us` = the stored upper bounds, `valueUppers spec`,
+never empty).  A NaN sample is NOT dropped: `placeValue us NaN = us.length - 1` (`nan_last`), it is counted
+in the last bucket — the same clamp as the repaired Go code — so every `recv m _` is one sample.
+`recd` on a value histogram changes nothing (`samplesV` only collects `recv`). -/
+
+/-- sum of the sample counts `n` of the `Event.hval` events with full name `nm`, tags `tg` and bounds
+`(lo, hi)` selected by `p` -/
+def histValueDelivered (nm : Bytes) (tg : TagMap) (p : F64 → F64 → Bool) (es : List Event) : Int :=
+  (es.map (hvw nm tg p id)).sum
+
+/-- unreported samples in the buckets of `us` whose bounds `(lower, upper)` are selected by `p` -/
+def valueMass (p : F64 → F64 → Bool) (us : List F64) (cs : List Int) : Int := bsum (hvTerm p id us cs) cs.length
+
+/-- is `v` placed (by `placeValue`) into a bucket whose bounds are selected by `p`? -/
+def valueSel (p : F64 → F64 → Bool) (us : List F64) (v : F64) : Bool :=
+  p (valueLower us (placeValue us v)) (us.getD (placeValue us v) 0)
+
+theorem valueMass_zero (p : F64 → F64 → Bool) (us : List F64) (k : Nat) :
+    valueMass p us (List.replicate k 0) = 0 := by
+  apply bsum_zero
+  intro i _
+  simp only [hvTerm, List.getD_eq_getElem?_getD, List.getElem?_replicate]
+  split
+  · split <;> rfl
+  · rfl
+
+theorem histV_matches (st : St) (s : ScopeS) (n : Bytes) (h : Hist) (p : F64 → F64 → Bool) (ω φ : Int → Int) :
+    Matches (histVMeas (fqn st.sep s.pfx n) s.tags p ω φ) st.sep s (.hist n h) := ⟨rfl, rfl, rfl⟩
+
+/-- **value-histogram conservation, invariant form, for any selection `p` of buckets by their bounds**:
+(delivered sample counts in selected buckets) + (unreported in selected buckets) = (unreported at the
+start) + (number of `recv m v` whose bucket is selected). -/
+theorem histogram_value_conservation_inv (p : F64 → F64 → Bool) (st : St) (hmet : MetInv st) (sid m : Nat)
+    (s : ScopeS) (n : Bytes) (dU : List Int) (us : List F64) (cs : List Int) (hne : us ≠ [])
+    (hlen : cs.length = us.length)
+    (hs : getScope st sid = some s) (hm : (m, Metric.hist n ⟨false, dU, us, cs⟩) ∈ s.metrics) (ops : List Op)
+    (hsole : Always (SoleOwner "hist" (fqn st.sep s.pfx n) s.tags sid m) st ops)
+    (hlive : Live (runEv st ops).1 sid) :
+    ∃ s' cs', getScope (runEv st ops).1 sid = some s' ∧ (m, Metric.hist n ⟨false, dU, us, cs'⟩) ∈ s'.metrics ∧
+      cs'.length = us.length ∧
+      histValueDelivered (fqn st.sep s.pfx n) s.tags p (runEv st ops).2 + valueMass p us cs'
+        = valueMass p us cs + (((ScopeRec.samplesV m ops).filter (valueSel p us)).length : Int) := by
+  obtain ⟨s', x', hs', hx', ⟨cs', rfl, hl'⟩, hw⟩ :=
+    core_inv (histVMeas (fqn st.sep s.pfx n) s.tags p id id) (histVMeas_lawful _ _ _ _ _ weights_id) sid m 0
+      (IsHistV n dU us) (recvOf m us p) (fun _ => True) (isHistV_apply m n dU us) (isHistV_reset n dU us)
+      (fun x op _ h => histV_gain m n dU us hne p x op h) st hmet s _ hs hm (histV_matches st s n _ p id id)
+      ⟨cs, rfl, hlen⟩ ops (fun _ _ => trivial) hsole hlive
+  refine ⟨s', cs', hs', hx', hl', ?_⟩
+  have := hw.zero
+  rw [sum_recvOf] at this
+  exact this
+
+/-- **the same after a final `report`**: everything recorded has been delivered, all buckets are `0` -/
+theorem histogram_value_conservation (p : F64 → F64 → Bool) (st : St) (hmet : MetInv st) (sid m : Nat)
+    (s : ScopeS) (n : Bytes) (dU : List Int) (us : List F64) (cs : List Int) (hne : us ≠ [])
+    (hlen : cs.length = us.length)
+    (hs : getScope st sid = some s) (hm : (m, Metric.hist n ⟨false, dU, us, cs⟩) ∈ s.metrics) (ops : List Op)
+    (hsole : Always (SoleOwner "hist" (fqn st.sep s.pfx n) s.tags sid m) st (ops ++ [.report]))
+    (hlive : Live (runEv st (ops ++ [.report])).1 sid)
+    (hk : st.cfg.kind ≠ .none) (hreg : ∃ e ∈ st.reg, e.2 = sid) :
+    histValueDelivered (fqn st.sep s.pfx n) s.tags p (runEv st (ops ++ [.report])).2
+        = valueMass p us cs + (((ScopeRec.samplesV m ops).filter (valueSel p us)).length : Int) ∧
+    ∃ (s' : ScopeS) (cs' : List Int), getScope (runEv st (ops ++ [.report])).1 sid = some s' ∧
+      (m, Metric.hist n ⟨false, dU, us, cs'.map fun _ => 0⟩) ∈ s'.metrics := by
+  obtain ⟨s', x', hs', hx', ⟨cs', rfl, _⟩, hw⟩ :=
+    core_flush (histVMeas (fqn st.sep s.pfx n) s.tags p id id) (histVMeas_lawful _ _ _ _ _ weights_id) sid m 0
+      (IsHistV n dU us) (recvOf m us p) (fun _ => True) (isHistV_apply m n dU us) (isHistV_reset n dU us)
+      (fun x op _ h => histV_gain m n dU us hne p x op h) st hmet s _ hs hm (histV_matches st s n _ p id id)
+      ⟨cs, rfl, hlen⟩ ops (fun _ _ => trivial) hsole hlive hk hreg
+  refine ⟨?_, s', cs', hs', hx'⟩
+  have := hw.zero
+  rw [sum_recvOf] at this
+  exact this
+
+/-- **`histogram_conservation`** (value histogram): the sum of the sample counts of all delivered `hval`
+events of `m`'s identity = what was unreported at the start + the number of `recv m _` operations
+(NaN included, `recd m _` not counted). -/
+theorem histogram_conservation_value (st : St) (hmet : MetInv st) (sid m : Nat)
+    (s : ScopeS) (n : Bytes) (dU : List Int) (us : List F64) (cs : List Int) (hne : us ≠ [])
+    (hlen : cs.length = us.length)
+    (hs : getScope st sid = some s) (hm : (m, Metric.hist n ⟨false, dU, us, cs⟩) ∈ s.metrics) (ops : List Op)
+    (hsole : Always (SoleOwner "hist" (fqn st.sep s.pfx n) s.tags sid m) st (ops ++ [.report]))
+    (hlive : Live (runEv st (ops ++ [.report])).1 sid)
+    (hk : st.cfg.kind ≠ .none) (hreg : ∃ e ∈ st.reg, e.2 = sid) :
+    histValueDelivered (fqn st.sep s.pfx n) s.tags (fun _ _ => true) (runEv st (ops ++ [.report])).2
+        = valueMass (fun _ _ => true) us cs + ((ScopeRec.samplesV m ops).length : Int) := by
+  have h := (histogram_value_conservation (fun _ _ => true) st hmet sid m s n dU us cs hne hlen hs hm ops hsole
+    hlive hk hreg).1
+  have e : (ScopeRec.samplesV m ops).filter (valueSel (fun _ _ => true) us) = ScopeRec.samplesV m ops := by
+    apply List.filter_eq_self.mpr
+    intro v _; rfl
+  rw [e] at h
+  exact h
+
+/-- **`histogram_bucket_conservation`** (value histogram): for every pair of bounds `(lo, hi)`, the delivered
+count of the `hval … lo hi` events = what was unreported in the buckets with these bounds + the number of
+recorded samples that `placeValue` (the placement function of C03) puts into a bucket with these bounds. -/
+theorem histogram_bucket_conservation_value (lo hi : F64) (st : St) (hmet : MetInv st) (sid m : Nat)
+    (s : ScopeS) (n : Bytes) (dU : List Int) (us : List F64) (cs : List Int) (hne : us ≠ [])
+    (hlen : cs.length = us.length)
+    (hs : getScope st sid = some s) (hm : (m, Metric.hist n ⟨false, dU, us, cs⟩) ∈ s.metrics) (ops : List Op)
+    (hsole : Always (SoleOwner "hist" (fqn st.sep s.pfx n) s.tags sid m) st (ops ++ [.report]))
+    (hlive : Live (runEv st (ops ++ [.report])).1 sid)
+    (hk : st.cfg.kind ≠ .none) (hreg : ∃ e ∈ st.reg, e.2 = sid) :
+    histValueDelivered (fqn st.sep s.pfx n) s.tags (fun a b => a == lo && b == hi) (runEv st (ops ++ [.report])).2
+        = valueMass (fun a b => a == lo && b == hi) us cs
+          + (((ScopeRec.samplesV m ops).filter fun v =>
+              valueLower us (placeValue us v) == lo && us.getD (placeValue us v) 0 == hi).length : Int) :=
+  (histogram_value_conservation (fun a b => a == lo && b == hi) st hmet sid m s n dU us cs hne hlen hs hm ops hsole
+    hlive hk hreg).1
+
+theorem hvw_one_nonneg (nm : Bytes) (tg : TagMap) (p : F64 → F64 → Bool) (e : Event) : 0 ≤ hvw nm tg p one e := by
+  cases e <;> simp only [hvw] <;> first | (split <;> simp [one]) | exact Int.le_refl 0
+
+theorem hvμ_nz_nonneg (p : F64 → F64 → Bool) (x : Metric) : 0 ≤ hvμ p nz x := by
+  cases x with
+  | hist n h =>
+    simp only [hvμ]
+    split <;> first
+      | exact Int.le_refl 0
+      | (apply bsum_nonneg; intro i; simp only [hvTerm, nz]; split <;> (try split) <;> simp)
+  | _ => exact Int.le_refl 0
+
+theorem no_hval_event {nm : Bytes} {tg : TagMap} {e : Event} (h : hvw nm tg (fun _ _ => true) one e = 0)
+    (lo hi : F64) (c : Int) : e ≠ .hval nm tg lo hi c := by
+  rintro rfl
+  simp [hvw, one] at h
+
+/-- **`idle_pass_silent`** (value histogram): `report`, then operations none of which goes through handle `m`,
+then `report`: nothing after the first report produces an `hval` event of `m`'s identity. -/
+theorem histogram_idle_pass_silent_value (st : St) (hmet : MetInv st) (sid m : Nat)
+    (s : ScopeS) (n : Bytes) (dU : List Int) (us : List F64) (cs : List Int) (hlen : cs.length = us.length)
+    (hs : getScope st sid = some s) (hm : (m, Metric.hist n ⟨false, dU, us, cs⟩) ∈ s.metrics) (mid : List Op)
+    (hidle : ∀ op ∈ mid, ScopeRec.target op ≠ some m)
+    (hsole : Always (SoleOwner "hist" (fqn st.sep s.pfx n) s.tags sid m) st (.report :: (mid ++ [.report])))
+    (hlive : Live (runEv st (.report :: (mid ++ [.report]))).1 sid)
+    (hk : st.cfg.kind ≠ .none) (hreg : ∃ e ∈ st.reg, e.2 = sid) :
+    ∀ e ∈ (runEv (step st .report).1 (mid ++ [.report])).2, ∀ lo hi c,
+      e ≠ .hval (fqn st.sep s.pfx n) s.tags lo hi c := by
+  intro e he
+  exact no_hval_event (core_idle (histVMeas (fqn st.sep s.pfx n) s.tags (fun _ _ => true) one nz)
+    (histVMeas_lawful _ _ _ _ _ weights_count) (hvw_one_nonneg _ _ _) (hvμ_nz_nonneg _) sid m (IsHistV n dU us)
+    (isHistV_apply m n dU us) (isHistV_reset n dU us) st hmet s _ hs hm (histV_matches st s n _ _ one nz)
+    ⟨cs, rfl, hlen⟩ mid hidle hsole hlive hk hreg e he)
+
+/-! ### duration histograms
+
+`RecordDuration(d)` increments bucket `placeKey us d` (`us` = `durationUppers spec`, never empty); `recv` on
+a duration histogram changes nothing (`samplesD` only collects `recd`). -/
+
+/-- sum of the sample counts `n` of the `Event.hdur` events with full name `nm`, tags `tg` and bounds
+`(lo, hi)` selected by `p` -/
+def histDurationDelivered (nm : Bytes) (tg : TagMap) (p : Int → Int → Bool) (es : List Event) : Int :=
+  (es.map (hdw nm tg p id)).sum
+
+/-- unreported samples in the buckets of `us` whose bounds `(lower, upper)` are selected by `p` -/
+def durationMass (p : Int → Int → Bool) (us : List Int) (cs : List Int) : Int := bsum (hdTerm p id us cs) cs.length
+
+/-- is `v` placed (by `placeKey`) into a bucket whose bounds are selected by `p`? -/
+def durationSel (p : Int → Int → Bool) (us : List Int) (v : Int) : Bool :=
+  p (durationLower us (placeKey us v)) (us.getD (placeKey us v) 0)
+
+theorem durationMass_zero (p : Int → Int → Bool) (us : List Int) (k : Nat) :
+    durationMass p us (List.replicate k 0) = 0 := by
+  apply bsum_zero
+  intro i _
+  simp only [hdTerm, List.getD_eq_getElem?_getD, List.getElem?_replicate]
+  split
+  · split <;> rfl
+  · rfl
+
+theorem histD_matches (st : St) (s : ScopeS) (n : Bytes) (h : Hist) (p : Int → Int → Bool) (ω φ : Int → Int) :
+    Matches (histDMeas (fqn st.sep s.pfx n) s.tags p ω φ) st.sep s (.hist n h) := ⟨rfl, rfl, rfl⟩
+
+/-- **duration-histogram conservation, invariant form, for any selection `p` of buckets by their bounds**:
+(delivered sample counts in selected buckets) + (unreported in selected buckets) = (unreported at the
+start) + (number of `recd m d` whose bucket is selected). -/
+theorem histogram_duration_conservation_inv (p : Int → Int → Bool) (st : St) (hmet : MetInv st) (sid m : Nat)
+    (s : ScopeS) (n : Bytes) (vU : List F64) (us : List Int) (cs : List Int) (hne : us ≠ [])
+    (hlen : cs.length = us.length)
+    (hs : getScope st sid = some s) (hm : (m, Metric.hist n ⟨true, us, vU, cs⟩) ∈ s.metrics) (ops : List Op)
+    (hsole : Always (SoleOwner "hist" (fqn st.sep s.pfx n) s.tags sid m) st ops)
+    (hlive : Live (runEv st ops).1 sid) :
+    ∃ s' cs', getScope (runEv st ops).1 sid = some s' ∧ (m, Metric.hist n ⟨true, us, vU, cs'⟩) ∈ s'.metrics ∧
+      cs'.length = us.length ∧
+      histDurationDelivered (fqn st.sep s.pfx n) s.tags p (runEv st ops).2 + durationMass p us cs'
+        = durationMass p us cs + (((ScopeRec.samplesD m ops).filter (durationSel p us)).length : Int) := by
+  obtain ⟨s', x', hs', hx', ⟨cs', rfl, hl'⟩, hw⟩ :=
+    core_inv (histDMeas (fqn st.sep s.pfx n) s.tags p id id) (histDMeas_lawful _ _ _ _ _ weights_id) sid m 0
+      (IsHistD n vU us) (recdOf m us p) (fun _ => True) (isHistD_apply m n vU us) (isHistD_reset n vU us)
+      (fun x op _ h => histD_gain m n vU us hne p x op h) st hmet s _ hs hm (histD_matches st s n _ p id id)
+      ⟨cs, rfl, hlen⟩ ops (fun _ _ => trivial) hsole hlive
+  refine ⟨s', cs', hs', hx', hl', ?_⟩
+  have := hw.zero
+  rw [sum_recdOf] at this
+  exact this
+
+/-- **the same after a final `report`**: everything recorded has been delivered, all buckets are `0` -/
+theorem histogram_duration_conservation (p : Int → Int → Bool) (st : St) (hmet : MetInv st) (sid m : Nat)
+    (s : ScopeS) (n : Bytes) (vU : List F64) (us : List Int) (cs : List Int) (hne : us ≠ [])
+    (hlen : cs.length = us.length)
+    (hs : getScope st sid = some s) (hm : (m, Metric.hist n ⟨true, us, vU, cs⟩) ∈ s.metrics) (ops : List Op)
+    (hsole : Always (SoleOwner "hist" (fqn st.sep s.pfx n) s.tags sid m) st (ops ++ [.report]))
+    (hlive : Live (runEv st (ops ++ [.report])).1 sid)
+    (hk : st.cfg.kind ≠ .none) (hreg : ∃ e ∈ st.reg, e.2 = sid) :
+    histDurationDelivered (fqn st.sep s.pfx n) s.tags p (runEv st (ops ++ [.report])).2
+        = durationMass p us cs + (((ScopeRec.samplesD m ops).filter (durationSel p us)).length : Int) ∧
+    ∃ (s' : ScopeS) (cs' : List Int), getScope (runEv st (ops ++ [.report])).1 sid = some s' ∧
+      (m, Metric.hist n ⟨true, us, vU, cs'.map fun _ => 0⟩) ∈ s'.metrics := by
+  obtain ⟨s', x', hs', hx', ⟨cs', rfl, _⟩, hw⟩ :=
+    core_flush (histDMeas (fqn st.sep s.pfx n) s.tags p id id) (histDMeas_lawful _ _ _ _ _ weights_id) sid m 0
+      (IsHistD n vU us) (recdOf m us p) (fun _ => True) (isHistD_apply m n vU us) (isHistD_reset n vU us)
+      (fun x op _ h => histD_gain m n vU us hne p x op h) st hmet s _ hs hm (histD_matches st s n _ p id id)
+      ⟨cs, rfl, hlen⟩ ops (fun _ _ => trivial) hsole hlive hk hreg
+  refine ⟨?_, s', cs', hs', hx'⟩
+  have := hw.zero
+  rw [sum_recdOf] at this
+  exact this
+
+/-- **`histogram_conservation`** (duration histogram): the sum of the sample counts of all delivered `hdur`
+events of `m`'s identity = what was unreported at the start + the number of `recd m _` operations
+(`recv m _` not counted). -/
+theorem histogram_conservation_duration (st : St) (hmet : MetInv st) (sid m : Nat)
+    (s : ScopeS) (n : Bytes) (vU : List F64) (us : List Int) (cs : List Int) (hne : us ≠ [])
+    (hlen : cs.length = us.length)
+    (hs : getScope st sid = some s) (hm : (m, Metric.hist n ⟨true, us, vU, cs⟩) ∈ s.metrics) (ops : List Op)
+    (hsole : Always (SoleOwner "hist" (fqn st.sep s.pfx n) s.tags sid m) st (ops ++ [.report]))
+    (hlive : Live (runEv st (ops ++ [.report])).1 sid)
+    (hk : st.cfg.kind ≠ .none) (hreg : ∃ e ∈ st.reg, e.2 = sid) :
+    histDurationDelivered (fqn st.sep s.pfx n) s.tags (fun _ _ => true) (runEv st (ops ++ [.report])).2
+        = durationMass (fun _ _ => true) us cs + ((ScopeRec.samplesD m ops).length : Int) := by
+  have h := (histogram_duration_conservation (fun _ _ => true) st hmet sid m s n vU us cs hne hlen hs hm ops hsole
+    hlive hk hreg).1
+  have e : (ScopeRec.samplesD m ops).filter (durationSel (fun _ _ => true) us) = ScopeRec.samplesD m ops := by
+    apply List.filter_eq_self.mpr
+    intro v _; rfl
+  rw [e] at h
+  exact h
+
+/-- **`histogram_bucket_conservation`** (duration histogram): for every pair of bounds `(lo, hi)`, the delivered
+count of the `hdur … lo hi` events = what was unreported in the buckets with these bounds + the number of
+recorded samples that `placeKey` (the placement function of C03) puts into a bucket with these bounds. -/
+theorem histogram_bucket_conservation_duration (lo hi : Int) (st : St) (hmet : MetInv st) (sid m : Nat)
+    (s : ScopeS) (n : Bytes) (vU : List F64) (us : List Int) (cs : List Int) (hne : us ≠ [])
+    (hlen : cs.length = us.length)
+    (hs : getScope st sid = some s) (hm : (m, Metric.hist n ⟨true, us, vU, cs⟩) ∈ s.metrics) (ops : List Op)
+    (hsole : Always (SoleOwner "hist" (fqn st.sep s.pfx n) s.tags sid m) st (ops ++ [.report]))
+    (hlive : Live (runEv st (ops ++ [.report])).1 sid)
+    (hk : st.cfg.kind ≠ .none) (hreg : ∃ e ∈ st.reg, e.2 = sid) :
+    histDurationDelivered (fqn st.sep s.pfx n) s.tags (fun a b => a == lo && b == hi) (runEv st (ops ++ [.report])).2
+        = durationMass (fun a b => a == lo && b == hi) us cs
+          + (((ScopeRec.samplesD m ops).filter fun v =>
+              durationLower us (placeKey us v) == lo && us.getD (placeKey us v) 0 == hi).length : Int) :=
+  (histogram_duration_conservation (fun a b => a == lo && b == hi) st hmet sid m s n vU us cs hne hlen hs hm ops hsole
+    hlive hk hreg).1
+
+theorem hdw_one_nonneg (nm : Bytes) (tg : TagMap) (p : Int → Int → Bool) (e : Event) : 0 ≤ hdw nm tg p one e := by
+  cases e <;> simp only [hdw] <;> first | (split <;> simp [one]) | exact Int.le_refl 0
+
+theorem hdμ_nz_nonneg (p : Int → Int → Bool) (x : Metric) : 0 ≤ hdμ p nz x := by
+  cases x with
+  | hist n h =>
+    simp only [hdμ]
+    split <;> first
+      | exact Int.le_refl 0
+      | (apply bsum_nonneg; intro i; simp only [hdTerm, nz]; split <;> (try split) <;> simp)
+  | _ => exact Int.le_refl 0
+
+theorem no_hdur_event {nm : Bytes} {tg : TagMap} {e : Event} (h : hdw nm tg (fun _ _ => true) one e = 0)
+    (lo hi : Int) (c : Int) : e ≠ .hdur nm tg lo hi c := by
+  rintro rfl
+  simp [hdw, one] at h
+
+/-- **`idle_pass_silent`** (duration histogram): `report`, then operations none of which goes through handle `m`,
+then `report`: nothing after the first report produces an `hdur` event of `m`'s identity. -/
+theorem histogram_idle_pass_silent_duration (st : St) (hmet : MetInv st) (sid m : Nat)
+    (s : ScopeS) (n : Bytes) (vU : List F64) (us : List Int) (cs : List Int) (hlen : cs.length = us.length)
+    (hs : getScope st sid = some s) (hm : (m, Metric.hist n ⟨true, us, vU, cs⟩) ∈ s.metrics) (mid : List Op)
+    (hidle : ∀ op ∈ mid, ScopeRec.target op ≠ some m)
+    (hsole : Always (SoleOwner "hist" (fqn st.sep s.pfx n) s.tags sid m) st (.report :: (mid ++ [.report])))
+    (hlive : Live (runEv st (.report :: (mid ++ [.report]))).1 sid)
+    (hk : st.cfg.kind ≠ .none) (hreg : ∃ e ∈ st.reg, e.2 = sid) :
+    ∀ e ∈ (runEv (step st .report).1 (mid ++ [.report])).2, ∀ lo hi c,
+      e ≠ .hdur (fqn st.sep s.pfx n) s.tags lo hi c := by
+  intro e he
+  exact no_hdur_event (core_idle (histDMeas (fqn st.sep s.pfx n) s.tags (fun _ _ => true) one nz)
+    (histDMeas_lawful _ _ _ _ _ weights_count) (hdw_one_nonneg _ _ _) (hdμ_nz_nonneg _) sid m (IsHistD n vU us)
+    (isHistD_apply m n vU us) (isHistD_reset n vU us) st hmet s _ hs hm (histD_matches st s n _ _ one nz)
+    ⟨cs, rfl, hlen⟩ mid hidle hsole hlive hk hreg e he)
+
+/-! ### the same from a reachable state
+
+`Reach cfg pfx sep tags st` (some program leads from the root to `st`) supplies `MetInv st`; the configured
+reporter kind is that of the root; and scope `sid`, being open while the root is open, has a registry entry
+(`Cons.reach_registered`: invariant `Cons.LR`, any sanitizer, any shards). -/
+
+theorem reach_hyps {cfg : Cfg} {pfx0 sep0 : Bytes} {tags0 : TagMap} {st : St}
+    (hreach : Reach cfg pfx0 sep0 tags0 st) (hk : cfg.kind ≠ .none) {sid : Nat} {s : ScopeS}
+    (hs : getScope st sid = some s) (ops : List Op) (hlive : Live (runEv st ops).1 sid) :
+    MetInv st ∧ st.cfg.kind ≠ .none ∧ ∃ e ∈ st.reg, e.2 = sid := by
+  have hmet := reach_metInv hreach
+  obtain ⟨⟨s0, hs0, hc⟩, hrc⟩ := live_init hmet hs ops hlive
+  rw [hs] at hs0; cases hs0
+  exact ⟨hmet, by rw [reach_cfg hreach]; exact hk, reach_registered hreach hrc hs hc⟩
+
+/-- **`counter_conservation`** from a reachable state -/
+theorem counter_conservation_reach {cfg : Cfg} {pfx0 sep0 : Bytes} {tags0 : TagMap} (st : St)
+    (hreach : Reach cfg pfx0 sep0 tags0 st) (hk : cfg.kind ≠ .none) (sid m : Nat) (s : ScopeS) (n : Bytes) (u : Int)
+    (hs : getScope st sid = some s) (hm : (m, Metric.counter n u) ∈ s.metrics) (ops : List Op)
+    (hsole : Always (SoleOwner "counter" (fqn st.sep s.pfx n) s.tags sid m) st (ops ++ [.report]))
+    (hlive : Live (runEv st (ops ++ [.report])).1 sid) :
+    wrap64 (counterDelivered (fqn st.sep s.pfx n) s.tags (runEv st (ops ++ [.report])).2)
+        = wrap64 (u + incTotal m ops) ∧
+    ∃ s', getScope (runEv st (ops ++ [.report])).1 sid = some s' ∧ (m, Metric.counter n 0) ∈ s'.metrics := by
+  obtain ⟨h1, h2, h3⟩ := reach_hyps hreach hk hs _ hlive
+  exact counter_conservation st h1 sid m s n u hs hm ops hsole hlive h2 h3
+
+theorem counter_idle_pass_silent_reach {cfg : Cfg} {pfx0 sep0 : Bytes} {tags0 : TagMap} (st : St)
+    (hreach : Reach cfg pfx0 sep0 tags0 st) (hk : cfg.kind ≠ .none) (sid m : Nat) (s : ScopeS) (n : Bytes) (u : Int)
+    (hs : getScope st sid = some s) (hm : (m, Metric.counter n u) ∈ s.metrics) (mid : List Op)
+    (hidle : ∀ op ∈ mid, ScopeRec.target op ≠ some m)
+    (hsole : Always (SoleOwner "counter" (fqn st.sep s.pfx n) s.tags sid m) st (.report :: (mid ++ [.report])))
+    (hlive : Live (runEv st (.report :: (mid ++ [.report]))).1 sid) :
+    ∀ e ∈ (runEv (step st .report).1 (mid ++ [.report])).2, ∀ v, e ≠ .counter (fqn st.sep s.pfx n) s.tags v := by
+  obtain ⟨h1, h2, h3⟩ := reach_hyps hreach hk hs _ hlive
+  exact counter_idle_pass_silent st h1 sid m s n u hs hm mid hidle hsole hlive h2 h3
+
+/-- … from a reachable state -/
+theorem histogram_conservation_value_reach {cfg : Cfg} {pfx0 sep0 : Bytes} {tags0 : TagMap} (st : St)
+    (hreach : Reach cfg pfx0 sep0 tags0 st) (hk : cfg.kind ≠ .none) (sid m : Nat)
+    (s : ScopeS) (n : Bytes) (dU : List Int) (us : List F64) (cs : List Int) (hne : us ≠ [])
+    (hlen : cs.length = us.length)
+    (hs : getScope st sid = some s) (hm : (m, Metric.hist n ⟨false, dU, us, cs⟩) ∈ s.metrics) (ops : List Op)
+    (hsole : Always (SoleOwner "hist" (fqn st.sep s.pfx n) s.tags sid m) st (ops ++ [.report]))
+    (hlive : Live (runEv st (ops ++ [.report])).1 sid) :
+    histValueDelivered (fqn st.sep s.pfx n) s.tags (fun _ _ => true) (runEv st (ops ++ [.report])).2
+        = valueMass (fun _ _ => true) us cs + ((ScopeRec.samplesV m ops).length : Int) := by
+  obtain ⟨h1, h2, h3⟩ := reach_hyps hreach hk hs _ hlive
+  exact histogram_conservation_value st h1 sid m s n dU us cs hne hlen hs hm ops hsole hlive h2 h3
+
+theorem histogram_bucket_conservation_value_reach {cfg : Cfg} {pfx0 sep0 : Bytes} {tags0 : TagMap} (lo hi : F64)
+    (st : St) (hreach : Reach cfg pfx0 sep0 tags0 st) (hk : cfg.kind ≠ .none) (sid m : Nat)
+    (s : ScopeS) (n : Bytes) (dU : List Int) (us : List F64) (cs : List Int) (hne : us ≠ [])
+    (hlen : cs.length = us.length)
+    (hs : getScope st sid = some s) (hm : (m, Metric.hist n ⟨false, dU, us, cs⟩) ∈ s.metrics) (ops : List Op)
+    (hsole : Always (SoleOwner "hist" (fqn st.sep s.pfx n) s.tags sid m) st (ops ++ [.report]))
+    (hlive : Live (runEv st (ops ++ [.report])).1 sid) :
+    histValueDelivered (fqn st.sep s.pfx n) s.tags (fun a b => a == lo && b == hi) (runEv st (ops ++ [.report])).2
+        = valueMass (fun a b => a == lo && b == hi) us cs
+          + (((ScopeRec.samplesV m ops).filter fun v =>
+              valueLower us (placeValue us v) == lo && us.getD (placeValue us v) 0 == hi).length : Int) := by
+  obtain ⟨h1, h2, h3⟩ := reach_hyps hreach hk hs _ hlive
+  exact histogram_bucket_conservation_value lo hi st h1 sid m s n dU us cs hne hlen hs hm ops hsole hlive h2 h3
+
+theorem histogram_idle_pass_silent_value_reach {cfg : Cfg} {pfx0 sep0 : Bytes} {tags0 : TagMap} (st : St)
+    (hreach : Reach cfg pfx0 sep0 tags0 st) (hk : cfg.kind ≠ .none) (sid m : Nat)
+    (s : ScopeS) (n : Bytes) (dU : List Int) (us : List F64) (cs : List Int) (hlen : cs.length = us.length)
+    (hs : getScope st sid = some s) (hm : (m, Metric.hist n ⟨false, dU, us, cs⟩) ∈ s.metrics) (mid : List Op)
+    (hidle : ∀ op ∈ mid, ScopeRec.target op ≠ some m)
+    (hsole : Always (SoleOwner "hist" (fqn st.sep s.pfx n) s.tags sid m) st (.report :: (mid ++ [.report])))
+    (hlive : Live (runEv st (.report :: (mid ++ [.report]))).1 sid) :
+    ∀ e ∈ (runEv (step st .report).1 (mid ++ [.report])).2, ∀ lo hi c,
+      e ≠ .hval (fqn st.sep s.pfx n) s.tags lo hi c := by
+  obtain ⟨h1, h2, h3⟩ := reach_hyps hreach hk hs _ hlive
+  exact histogram_idle_pass_silent_value st h1 sid m s n dU us cs hlen hs hm mid hidle hsole hlive h2 h3
+
+/-- … from a reachable state -/
+theorem histogram_conservation_duration_reach {cfg : Cfg} {pfx0 sep0 : Bytes} {tags0 : TagMap} (st : St)
+    (hreach : Reach cfg pfx0 sep0 tags0 st) (hk : cfg.kind ≠ .none) (sid m : Nat)
+    (s : ScopeS) (n : Bytes) (vU : List F64) (us : List Int) (cs : List Int) (hne : us ≠ [])
+    (hlen : cs.length = us.length)
+    (hs : getScope st sid = some s) (hm : (m, Metric.hist n ⟨true, us, vU, cs⟩) ∈ s.metrics) (ops : List Op)
+    (hsole : Always (SoleOwner "hist" (fqn st.sep s.pfx n) s.tags sid m) st (ops ++ [.report]))
+    (hlive : Live (runEv st (ops ++ [.report])).1 sid) :
+    histDurationDelivered (fqn st.sep s.pfx n) s.tags (fun _ _ => true) (runEv st (ops ++ [.report])).2
+        = durationMass (fun _ _ => true) us cs + ((ScopeRec.samplesD m ops).length : Int) := by
+  obtain ⟨h1, h2, h3⟩ := reach_hyps hreach hk hs _ hlive
+  exact histogram_conservation_duration st h1 sid m s n vU us cs hne hlen hs hm ops hsole hlive h2 h3
+
+theorem histogram_bucket_conservation_duration_reach {cfg : Cfg} {pfx0 sep0 : Bytes} {tags0 : TagMap} (lo hi : Int)
+    (st : St) (hreach : Reach cfg pfx0 sep0 tags0 st) (hk : cfg.kind ≠ .none) (sid m : Nat)
+    (s : ScopeS) (n : Bytes) (vU : List F64) (us : List Int) (cs : List Int) (hne : us ≠ [])
+    (hlen : cs.length = us.length)
+    (hs : getScope st sid = some s) (hm : (m, Metric.hist n ⟨true, us, vU, cs⟩) ∈ s.metrics) (ops : List Op)
+    (hsole : Always (SoleOwner "hist" (fqn st.sep s.pfx n) s.tags sid m) st (ops ++ [.report]))
+    (hlive : Live (runEv st (ops ++ [.report])).1 sid) :
+    histDurationDelivered (fqn st.sep s.pfx n) s.tags (fun a b => a == lo && b == hi) (runEv st (ops ++ [.report])).2
+        = durationMass (fun a b => a == lo && b == hi) us cs
+          + (((ScopeRec.samplesD m ops).filter fun v =>
+              durationLower us (placeKey us v) == lo && us.getD (placeKey us v) 0 == hi).length : Int) := by
+  obtain ⟨h1, h2, h3⟩ := reach_hyps hreach hk hs _ hlive
+  exact histogram_bucket_conservation_duration lo hi st h1 sid m s n vU us cs hne hlen hs hm ops hsole hlive h2 h3
+
+theorem histogram_idle_pass_silent_duration_reach {cfg : Cfg} {pfx0 sep0 : Bytes} {tags0 : TagMap} (st : St)
+    (hreach : Reach cfg pfx0 sep0 tags0 st) (hk : cfg.kind ≠ .none) (sid m : Nat)
+    (s : ScopeS) (n : Bytes) (vU : List F64) (us : List Int) (cs : List Int) (hlen : cs.length = us.length)
+    (hs : getScope st sid = some s) (hm : (m, Metric.hist n ⟨true, us, vU, cs⟩) ∈ s.metrics) (mid : List Op)
+    (hidle : ∀ op ∈ mid, ScopeRec.target op ≠ some m)
+    (hsole : Always (SoleOwner "hist" (fqn st.sep s.pfx n) s.tags sid m) st (.report :: (mid ++ [.report])))
+    (hlive : Live (runEv st (.report :: (mid ++ [.report]))).1 sid) :
+    ∀ e ∈ (runEv (step st .report).1 (mid ++ [.report])).2, ∀ lo hi c,
+      e ≠ .hdur (fqn st.sep s.pfx n) s.tags lo hi c := by
+  obtain ⟨h1, h2, h3⟩ := reach_hyps hreach hk hs _ hlive
+  exact histogram_idle_pass_silent_duration st h1 sid m s n vU us cs hlen hs hm mid hidle hsole hlive h2 h3
+
+/-! ### non-vacuity: a concrete two-pass history through the hypotheses -/
+
+/-- plain reporter, no sanitizer, one shard -/
+def cfgP : Cfg := { san := none, kind := .plain, closable := false, shards := 1, defaultBuckets := none }
+
+/-- the state after `h := root.Histogram("h", ValueBuckets{1.0, 2.0})` (metric id 0) -/
+def stH : St := Scope.runOps (mkRoot cfgP [] [] [])
+  [.hist 0 [104] (some (false, [], [0x3FF0000000000000, 0x4000000000000000]))]
+
+/-- the same state written out, as a function of the histogram's state -/
+def stOf (h : Hist) : St :=
+  { mkRoot cfgP [] [] [] with
+    scopes := [{ pfx := [], tags := [], closed := false, isRoot := true, metrics := [(0, .hist [104] h)] }],
+    nextMetric := 1 }
+
+/-- stored bounds `1.0, 2.0, MaxFloat64`, all counts `0` -/
+def hExp : Hist := ⟨false, [], [0x3FF0000000000000, 0x4000000000000000, F64.maxFloat], [0, 0, 0]⟩
+
+theorem newHist_exp : newHist (false, [], [0x3FF0000000000000, 0x4000000000000000]) = hExp := by
+  have : valueUppers [0x3FF0000000000000, 0x4000000000000000]
+      = [0x3FF0000000000000, 0x4000000000000000, F64.maxFloat] := by
+    simp [valueUppers, sortByKey, List.mergeSort, List.MergeSort.Internal.splitInTwo, List.merge]
+    decide
+  simp [newHist, this, hExp]
+
+theorem stH_eq : stH = stOf hExp := by rw [← newHist_exp]; rfl
+
+theorem metInv_stH : MetInv (stOf hExp) := stH_eq ▸ reach_metInv ⟨_, rfl⟩
+
+/-- first pass: samples on the bounds `1.0` and `2.0`; second pass: `2.0` again, a NaN, a duration (ignored);
+in between another metric, a subscope with a counter of its own, and the close of that subscope -/
+def opsH : List Op :=
+  [.recv 0 0x3FF0000000000000, .recv 0 0x4000000000000000, .report,
+   .recv 0 0x4000000000000000, .recv 0 0x7FF8000000000000, .recd 0 5,
+   .counter 0 [99], .inc 1 3, .sub 0 [97] 0, .counter 1 [104], .inc 2 1, .close 1]
+
+/-- the per-bucket theorem applies to this history, for the bucket `(1.0, 2.0]` … -/
+theorem exH_bucket :
+    histValueDelivered [104] [] (fun a b => a == 0x3FF0000000000000 && b == 0x4000000000000000)
+        (runEv (stOf hExp) (opsH ++ [.report])).2
+      = valueMass (fun a b => a == 0x3FF0000000000000 && b == 0x4000000000000000) hExp.vUppers [0, 0, 0]
+        + (((ScopeRec.samplesV 0 opsH).filter fun v =>
+            valueLower hExp.vUppers (placeValue hExp.vUppers v) == 0x3FF0000000000000
+              && hExp.vUppers.getD (placeValue hExp.vUppers v) 0 == 0x4000000000000000).length : Int) :=
+  histogram_bucket_conservation_value 0x3FF0000000000000 0x4000000000000000 (stOf hExp) metInv_stH 0 0
+    _ [104] [] hExp.vUppers [0, 0, 0] (by decide) rfl rfl List.mem_cons_self opsH
+    (always_of_B (fun _ => soleOwner_of_B) (by decide +kernel)) (live_of_B (by decide +kernel)) (by decide)
+    (reg_of_B (by decide +kernel))
+
+/-- … and both sides are `2` (the two samples `2.0`; `1.0` is in the first bucket, NaN in the last) -/
+example : histValueDelivered [104] [] (fun a b => a == 0x3FF0000000000000 && b == 0x4000000000000000)
+    (runEv (stOf hExp) (opsH ++ [.report])).2 = 2 := by decide +kernel
+
+example : ((ScopeRec.samplesV 0 opsH).filter fun v =>
+    valueLower hExp.vUppers (placeValue hExp.vUppers v) == 0x3FF0000000000000
+      && hExp.vUppers.getD (placeValue hExp.vUppers v) 0 == 0x4000000000000000).length = 2 := by
+  decide +kernel
+
+/-- the total (`histogram_conservation_value`): four `recv` (NaN included), the `recd` is not counted -/
+example : histValueDelivered [104] [] (fun _ _ => true) (runEv (stOf hExp) (opsH ++ [.report])).2
+    = valueMass (fun _ _ => true) hExp.vUppers [0, 0, 0] + ((ScopeRec.samplesV 0 opsH).length : Int) :=
+  histogram_conservation_value (stOf hExp) metInv_stH 0 0
+    _ [104] [] hExp.vUppers [0, 0, 0] (by decide) rfl rfl List.mem_cons_self opsH
+    (always_of_B (fun _ => soleOwner_of_B) (by decide +kernel)) (live_of_B (by decide +kernel)) (by decide)
+    (reg_of_B (by decide +kernel))
+
+example : histValueDelivered [104] [] (fun _ _ => true) (runEv (stOf hExp) (opsH ++ [.report])).2 = 4 := by
+  decide +kernel
+example : (ScopeRec.samplesV 0 opsH).length = 4 := by decide
+
+/-- the second pass of `report, (nothing on h), report` is silent for `h` -/
+example := histogram_idle_pass_silent_value (stOf hExp) metInv_stH 0 0 _ [104] [] hExp.vUppers [0, 0, 0] rfl rfl
+  List.mem_cons_self [.counter 0 [99], .inc 1 3] (by decide)
+  (always_of_B (fun _ => soleOwner_of_B) (by decide +kernel)) (live_of_B (by decide +kernel)) (by decide)
+  (reg_of_B (by decide +kernel))
+
+/-- the `_reach` form on the same history: no registry / reporter-kind / `MetInv` side conditions left -/
+example := histogram_bucket_conservation_value_reach (cfg := cfgP) (pfx0 := []) (sep0 := []) (tags0 := [])
+  0x3FF0000000000000 0x4000000000000000 (stOf hExp) (stH_eq ▸ ⟨_, rfl⟩) (by decide) 0 0
+  _ [104] [] hExp.vUppers [0, 0, 0] (by decide) rfl rfl List.mem_cons_self opsH
+  (always_of_B (fun _ => soleOwner_of_B) (by decide +kernel)) (live_of_B (by decide +kernel))
+
+/-! #### a counter: `c := root.Counter("c")`, two passes, other metrics and a subscope in between -/
+
+def stC : St := Scope.runOps (mkRoot cfgP [] [] []) [.counter 0 [99]]
+
+def opsC : List Op :=
+  [.inc 0 5, .report, .inc 0 7, .sub 0 [97] 0, .counter 1 [99], .inc 1 100, .inc 0 (-2), .gauge 0 [103], .upd 2 1]
+
+example := counter_conservation_reach (cfg := cfgP) (pfx0 := []) (sep0 := []) (tags0 := []) stC ⟨_, rfl⟩
+  (by decide) 0 0 { pfx := [], tags := [], closed := false, isRoot := true, metrics := [(0, .counter [99] 0)] }
+  [99] 0 rfl List.mem_cons_self opsC
+  (always_of_B (fun _ => soleOwner_of_B) (by decide +kernel)) (live_of_B (by decide +kernel))
+
+/-- both sides are `10`; the `100` of the counter `a.c` on the subscope is not attributed to `c` -/
+example : counterDelivered [99] [] (runEv stC (opsC ++ [.report])).2 = 10 ∧ 0 + incTotal 0 opsC = 10 := by
+  decide +kernel
+
+example := counter_idle_pass_silent_reach (cfg := cfgP) (pfx0 := []) (sep0 := []) (tags0 := []) stC ⟨_, rfl⟩
+  (by decide) 0 0 { pfx := [], tags := [], closed := false, isRoot := true, metrics := [(0, .counter [99] 0)] }
+  [99] 0 rfl List.mem_cons_self [.sub 0 [97] 0, .counter 1 [99], .inc 1 100] (by decide)
+  (always_of_B (fun _ => soleOwner_of_B) (by decide +kernel)) (live_of_B (by decide +kernel))
+
+/-! #### the `SoleOwner` hypothesis cannot be dropped
+
+`root.SubScope("a").Counter("b")` (id 0) and `root.Counter("a.b")` (id 1) are two counters with the same
+full name `a.b` and the same (empty) tags: the delivered sum of that identity is the sum over BOTH (3), not
+the increments of either handle (1 resp. 2), and `soleOwnerB` rejects the state. -/
+
+def stShared : St := Scope.runOps (mkRoot cfgP [] [] []) [.sub 0 [97] 0, .counter 1 [98], .counter 0 [97, 46, 98]]
+
+example : counterDelivered [97, 46, 98] [] (runEv stShared [.inc 0 1, .inc 1 2, .report]).2 = 3
+    ∧ incTotal 0 [.inc 0 1, .inc 1 2, .report] = 1 ∧ incTotal 1 [.inc 0 1, .inc 1 2, .report] = 2
+    ∧ soleOwnerB "counter" [97, 46, 98] [] 1 0 stShared = false := by decide +kernel
+
+/-! #### after `Close` of the scope conservation stops (why `Live` is assumed)
+
+A closed scope is reported once more and then cleared; an increment through the old handle after that is
+lost (in Go: it lands in a counter nobody reports any more). -/
+
+example : counterDelivered [97, 46, 98] []
+      (runEv (Scope.runOps (mkRoot cfgP [] [] []) [.sub 0 [97] 0, .counter 1 [98]])
+        [.inc 0 1, .close 1, .report, .inc 0 5, .report]).2 = 1 := by decide +kernel
+
+/-! #### a duration histogram with buckets `{10ns, 20ns}`: samples on the bounds, two passes -/
+
+def hExpD : Hist := ⟨true, [10, 20, maxInt64], [], [0, 0, 0]⟩
+
+def stOfD (h : Hist) : St :=
+  { mkRoot cfgP [] [] [] with
+    scopes := [{ pfx := [], tags := [], closed := false, isRoot := true, metrics := [(0, .hist [100] h)] }],
+    nextMetric := 1 }
+
+theorem newHist_expD : newHist (true, [10, 20], []) = hExpD := by
+  have : durationUppers [10, 20] = [10, 20, maxInt64] := by
+    simp [durationUppers, sortByKey, List.mergeSort, List.MergeSort.Internal.splitInTwo]
+  simp [newHist, this, hExpD]
+
+theorem reach_stD : Reach cfgP [] [] [] (stOfD hExpD) := by
+  refine ⟨[.hist 0 [100] (some (true, [10, 20], []))], ?_⟩
+  rw [← newHist_expD]; rfl
+
+def opsD : List Op := [.recd 0 10, .recd 0 11, .report, .recd 0 20, .recd 0 21, .recv 0 0x3FF0000000000000]
+
+example := histogram_bucket_conservation_duration_reach (cfg := cfgP) (pfx0 := []) (sep0 := []) (tags0 := [])
+  10 20 (stOfD hExpD) reach_stD (by decide) 0 0
+  _ [100] [] hExpD.dUppers [0, 0, 0] (by decide) rfl rfl List.mem_cons_self opsD
+  (always_of_B (fun _ => soleOwner_of_B) (by decide +kernel)) (live_of_B (by decide +kernel))
+
+/-- bucket `(10, 20]` gets `11` and `20`; `10` is in the first, `21` in the last bucket; total 4, `recv` ignored -/
+example : histDurationDelivered [100] [] (fun a b => a == 10 && b == 20) (runEv (stOfD hExpD) (opsD ++ [.report])).2 = 2
+    ∧ histDurationDelivered [100] [] (fun _ _ => true) (runEv (stOfD hExpD) (opsD ++ [.report])).2 = 4
+    ∧ (ScopeRec.samplesD 0 opsD).length = 4 := by decide +kernel
+
+end Conservation
 
 end Tally.Props.C03
